@@ -98,9 +98,33 @@ def sign_table(date: str):
     return dict(out["ok"]), nodes, [tuple(x) for x in out.get("le", [])]
 
 
+def sign_table_pe(date: str):
+    """As `sign_table`, with the verified partial evaluation of the parameter trees as a pre-pass (Core/PEval.lean,
+    Props/C16PE.lean: `signTablePE_sound`, `allNonnegPE_sound`, `leFactsPE_sound`)."""
+    nodes = build_gnodes(date)
+    out = json.loads(common.driver([json.dumps({"op": "sign_table_pe", "nodes": nodes}, ensure_ascii=False)])[0])
+    if "ok" not in out:
+        raise RuntimeError(str(out)[:400])
+    return dict(out["ok"]), nodes, [tuple(x) for x in out.get("le", [])]
+
+
 # ---------------------------------------------------------------------------------
 # search on the real system
 # ---------------------------------------------------------------------------------
+
+# What the verified analysis certifies on the unchanged tree (all sampled dates from the given day on): these are the
+# instance obligations of this check.  A claimed fact that the analysis can no longer derive from the CURRENT rule sources
+# is a broken obligation (the corner-population search then looks for the concrete negative value / exceeded cap).
+# Default targets that are not listed are not certified statically (relational reasoning, opaque rules) and rest on the search.
+CLAIMED_NONNEG = {
+    "abgelt_st_y_sn": "2015-01-01", "elterngeld_m": "2015-01-01", "arbeitsl_geld_2_m_bg": "2015-01-01",
+    "kinderzuschl_m_bg": "2015-01-01", "unterhaltsvors_m": "2015-01-01", "grunds_im_alter_m_eg": "2015-01-01",
+    "ges_rente_m": "2015-01-01", "eink_st_y_sn": "2023-01-01", "kindergeld_m": "2023-01-01",
+}
+CLAIMED_CAPS = {
+    ("arbeitsl_geld_2_m_bg", "arbeitsl_geld_2_vor_vorrang_m_bg"): "2015-01-01",
+    ("kinderzuschl_m_bg", "_kinderzuschl_nach_vermög_check_m_bg"): "2015-01-01",
+}
 
 CAPS = [
     # (capped node, cap node) : capped <= cap, row by row
@@ -245,17 +269,17 @@ def run(tier: str) -> int:
     from _gettsim.config import DEFAULT_TARGETS
     r = common.Run("C16", tier)
     quick = tier == "quick"
-    r.rule = ("static: verified sign analysis (Core/Sign.lean) over the dependency graph of the default targets rebuilt from the "
+    r.rule = ("static: verified sign analysis (Core/Sign.lean) after verified partial evaluation of the parameter trees (Core/PEval.lean) over the dependency graph of the default targets rebuilt from the "
               "rule sources at every sampled date: one obligation per default target 'non-negative' and per cap 'after <= before'; "
               "dynamic: populations with supplied person-level count columns (0…12 children / claims); corner populations (zero / 10^5..10^7 incomes and wealth, negative rental income, ages 0-100, big families, "
               "pensioners, self-employed) on the real system, all nodes finite, targets >= 0, caps. distinct = (date, obligation) / populations.")
-    common.build_and_audit(r, ["C16"], leanchecker=not quick)
+    common.build_and_audit(r, ["C16", "C16PE"], leanchecker=not quick)
     rnd = common.rng("C16")
     dates = popgen.DATES_QUICK + ["2015-01-01"] if quick else popgen.DATES_2015
     unknown = {}
     for date in dates:
         try:
-            table, nodes, les = sign_table(date)
+            table, nodes, les = sign_table_pe(date)
         except Exception as ex:  # noqa: BLE001
             r.broke("build", f"sign analysis at {date}", str(ex)[:500])
             continue
@@ -264,6 +288,12 @@ def run(tier: str) -> int:
             r.case({"static": t, "date": date})
             if a in ("nonneg", "pos", "zero"):
                 r.oblige(f"{t} >= 0 ({date})", True, a)
+            elif t in CLAIMED_NONNEG and date >= CLAIMED_NONNEG[t]:
+                r.oblige(f"{t} >= 0 ({date})", False, f"the verified sign analysis no longer certifies it (class {a})")
+                r.broke("obligation", f"{t} >= 0 at {date}: no longer certified by the verified sign analysis "
+                        f"(Core/Sign.lean after Core/PEval.lean) on the current rule sources",
+                        json.dumps({"target": t, "date": date, "class": a,
+                                    "unknown_ancestors": [n for n, v in table.items() if v == "any"][:40]}, ensure_ascii=False))
             else:
                 unknown.setdefault(t, []).append(date)
         for a, b in CAPS:
@@ -271,6 +301,9 @@ def run(tier: str) -> int:
                 r.case({"static-cap": [a, b], "date": date})
                 if (a, b) in les:
                     r.oblige(f"{a} <= {b} ({date})", True, "absLeArg")
+                elif (a, b) in CLAIMED_CAPS and date >= CLAIMED_CAPS[(a, b)]:
+                    r.oblige(f"{a} <= {b} ({date})", False, "no longer certified (absLeArg)")
+                    r.broke("obligation", f"{a} <= {b} at {date}: no longer certified by the verified analysis (leFacts)", "")
                 else:
                     unknown.setdefault(f"{a} <= {b}", []).append(date)
         r.extra.setdefault("sign_table_summary", {})[date] = {
